@@ -4,6 +4,7 @@ import (
 	"go/ast"
 	"go/token"
 	"sort"
+	"strings"
 )
 
 // ---------------------------------------------------------------- StructFacts.lean
@@ -154,6 +155,11 @@ func (c *ctx) structFacts() *leanFile {
 					}
 					if key == "" {
 						types["unknown"] = true
+						continue
+					}
+					// `done: false`, `posit: 0`, `iterator: nil`, `name: ""`: the zero value written out is the
+					// same as leaving the field out of the literal
+					if isZeroLiteral(val) {
 						continue
 					}
 					sf.CloneFields = append(sf.CloneFields, key)
@@ -374,11 +380,31 @@ func (c *ctx) apiFacts() *leanFile {
 		Has  bool   `json:"has"`
 	}
 	var checks []nilCheck
+	hasCheck := map[string]bool{}
+	delegatesTo := map[string]string{}
 	for _, name := range []string{"Compile", "CompileWithNS"} {
 		has := false
 		if fd := c.funcDecl("", name); fd != nil && fd.Body != nil {
 			var qy *ast.Ident
-			for _, s := range fd.Body.List {
+			// the whole body is `return G(…)` with G the other entry point: the check is G's
+			if len(fd.Body.List) == 1 {
+				if ret, ok := fd.Body.List[0].(*ast.ReturnStmt); ok && len(ret.Results) == 1 {
+					if fn, _, ok := funcCall(ret.Results[0]); ok && (fn == "Compile" || fn == "CompileWithNS") && fn != name {
+						delegatesTo[name] = fn
+					}
+				}
+			}
+			for i, s := range fd.Body.List {
+				// the inverted form: `if qy != nil { return <expr>, nil }` and the function ends in `return nil, <error>`
+				if ifs, ok := s.(*ast.IfStmt); ok && qy != nil && ifs.Init == nil && ifs.Else == nil && ifs.Body != nil && len(ifs.Body.List) > 0 && i == len(fd.Body.List)-2 {
+					if b, ok := unparen(ifs.Cond).(*ast.BinaryExpr); ok && b.Op == token.NEQ && c.sameIdent(b.X, qy) && isNil(b.Y) {
+						r1, ok1 := ifs.Body.List[len(ifs.Body.List)-1].(*ast.ReturnStmt)
+						r2, ok2 := fd.Body.List[i+1].(*ast.ReturnStmt)
+						if ok1 && ok2 && len(r1.Results) == 2 && !isNil(r1.Results[0]) && isNil(r1.Results[1]) && len(r2.Results) == 2 && isNil(r2.Results[0]) && !isNil(r2.Results[1]) {
+							has = true
+						}
+					}
+				}
 				switch x := s.(type) {
 				case *ast.AssignStmt:
 					if len(x.Rhs) == 1 && len(x.Lhs) >= 1 {
@@ -399,6 +425,13 @@ func (c *ctx) apiFacts() *leanFile {
 					}
 				}
 			}
+		}
+		hasCheck[name] = has
+	}
+	for _, name := range []string{"Compile", "CompileWithNS"} {
+		has := hasCheck[name]
+		if g, ok := delegatesTo[name]; ok && hasCheck[g] {
+			has = true
 		}
 		checks = append(checks, nilCheck{name, has})
 	}
@@ -558,4 +591,20 @@ func (c *ctx) unprotectedRisks(entries []string) []string {
 	}
 	sort.Strings(out)
 	return out
+}
+
+// isZeroLiteral: false, 0, 0.0, "", nil (universe identifiers / basic literals only).
+func isZeroLiteral(e ast.Expr) bool {
+	switch x := unparen(e).(type) {
+	case *ast.Ident:
+		return x.Name == "false" || x.Name == "nil"
+	case *ast.BasicLit:
+		switch x.Kind {
+		case token.INT, token.FLOAT:
+			return strings.Trim(x.Value, "0.") == "" && x.Value != ""
+		case token.STRING:
+			return x.Value == `""` || x.Value == "``"
+		}
+	}
+	return false
 }
